@@ -21,6 +21,8 @@
 //!                         page-tree model, from the bytes of the file alone) against `get_page` on generated tree files in
 //!                         the plain layout (integer boxes, attributes in place, classic table or xref stream with unfiltered
 //!                         object streams)                                                           in domain
+//!   c07.bytes.derived     the same files, the driver running the composition with the *derived* readers of `Page` / `PageTree`
+//!                         (`PageTreeB.openPagesBD`: generated schemas, /Type dispatch, parents loaded through the resolver)  in domain
 //! Oracle (implementation against the property itself; independent of the model):
 //!   c07.dfs               for every file of the in-domain streams: leaves in depth-first order computed from
 //!                         the abstract tree, nearest-ancestor attributes computed by walking up
@@ -671,8 +673,10 @@ fn damage(nodes: &mut Vec<Node>, rng: &mut Rng) -> String {
 
 /// `c07.bytes`: the byte-level composition in the driver (`PageTreeB.getPageB`: open path, resolver, parser models on the
 /// bytes, node reader, page-tree model) against `FileOptions::load(..).get_page(i)` on generated tree files
-fn bytes_stream(driver: &Driver, st: &mut Stream, seed: u64, cases: impl Iterator<Item = u64>) {
+fn bytes_stream(driver: &Driver, st: &mut Stream, std: &mut Stream, seed: u64, cases: impl Iterator<Item = u64>) {
     let mut reqs = vec![];
+    let mut reqs_d = vec![];
+    let mut reqs_a = vec![];
     let mut imps = vec![];
     for case in cases {
         let mut rng = Rng::derive(seed, "c07.bytes", case);
@@ -691,11 +695,27 @@ fn bytes_stream(driver: &Driver, st: &mut Stream, seed: u64, cases: impl Iterato
         let maxlevel = (0..nodes.len()).map(|i| level_of(&nodes, i)).max().unwrap_or(0);
         st.count(&format!("max_level={:02}", maxlevel));
         reqs.push(format!("c07.bytes {} {} @c07.bytes/{}/{}", nq, crate::driver::hex(&w.bytes), seed, case));
+        reqs_d.push(format!("c07.bytesd {} {} @c07.bytes/{}/{}", nq, crate::driver::hex(&w.bytes), seed, case));
+        reqs_a.push(format!("c07.agree {} @c07.bytes/{}/{}", crate::driver::hex(&w.bytes), seed, case));
         imps.push(imp);
     }
     let resp = driver.ask(&reqs);
     for ((rq, m), i) in reqs.iter().zip(resp.iter()).zip(imps.iter()) {
         st.case(rq, m, i, rq.len() > 600);
+    }
+    // the same files with the derived readers of `Page` / `PageTree` as node reader
+    let resp = driver.ask(&reqs_d);
+    for ((rq, m), i) in reqs_d.iter().zip(resp.iter()).zip(imps.iter()) {
+        std.case(rq, m, i, rq.len() > 600);
+    }
+    // the hypothesis `DefaultZeroEvaluates` of `page_nth_bytes_partial3`, evaluated
+    let r0 = driver.ask(&["c07.dflt0".to_string()]);
+    std.case("c07.dflt0", &r0[0], "1", false);
+    // the hypothesis `DerivedAgrees` of `page_nth_bytes_partial2`, evaluated on every object of every file
+    let resp = driver.ask(&reqs_a);
+    for (rq, m) in reqs_a.iter().zip(resp.iter()) {
+        std.count(if m == "1" { "derived_agrees_with_nodeOf=yes" } else { "derived_agrees_with_nodeOf=no" });
+        std.case(rq, m, "1", rq.len() > 600);
     }
 }
 
@@ -717,7 +737,9 @@ pub fn run(driver: &Driver, seed: u64, thorough: bool, replay: Option<&serde_jso
         }
         let mut st = Stream::new(&stream, stream != "c07.tree.outside" && stream != "c07.tree.deep");
         if stream == "c07.bytes" {
-            bytes_stream(driver, &mut st, seed, std::iter::once(case));
+            let mut sd = Stream::new("c07.bytes.derived", true);
+            bytes_stream(driver, &mut st, &mut sd, seed, std::iter::once(case));
+            rep.streams.push(sd);
         } else if stream == "c07.tree.exhaustive" {
             // the enumeration depends on the tier the failure was found in: try both
             let mut cs = exhaustive_cases(seed, 6, true, Some(case));
@@ -757,8 +779,10 @@ pub fn run(driver: &Driver, seed: u64, thorough: bool, replay: Option<&serde_jso
 
     let mut st = Stream::new("c07.bytes", true);
     let n = if thorough { 3_000 } else { 120 };
-    bytes_stream(driver, &mut st, seed, 0..n);
+    let mut sd = Stream::new("c07.bytes.derived", true);
+    bytes_stream(driver, &mut st, &mut sd, seed, 0..n);
     rep.streams.push(st);
+    rep.streams.push(sd);
 
     rep.oracles.push(or);
     rep
